@@ -62,6 +62,10 @@ enum Pre {
     Warm,
     Restarted,
     RestartedNoSidecar,
+    /// the thread's caches lag its last logged frame by one (the state a crash between the log
+    /// append and the cache appends leaves) AND the log ends with another thread's frames, so the
+    /// open-time recovery does not look at this thread; then an authority restart
+    RestartedLaggingBehindForeignTail,
 }
 
 struct World {
@@ -161,6 +165,23 @@ fn make_world(rt: &Arc<tokio::runtime::Runtime>, pre: Pre, ops: &[Op]) -> (World
         Pre::RestartedNoSidecar => {
             fx.restart();
             fx.drop_caches();
+        }
+        Pre::RestartedLaggingBehindForeignTail => {
+            let files: Vec<(std::path::PathBuf, Vec<u8>)> = crate::fixture::cache_files(&fx.cache_dir()).into_iter().filter_map(|p| std::fs::read(&p).ok().map(|b| (p, b))).collect();
+            let store = fx.store();
+            store.append_message(&thread, "u".into(), "o".into(), "logged, not cached".into()).expect("m1");
+            // roll the thread's cache family back to before that append
+            for p in crate::fixture::cache_files(&fx.cache_dir()) {
+                if p.file_name().map(|n| n.to_string_lossy().starts_with(&thread)).unwrap_or(false) {
+                    let _ = std::fs::remove_file(&p);
+                }
+            }
+            for (p, b) in &files {
+                let _ = std::fs::write(p, b);
+            }
+            store.branch(&thread, Some("foreign".into()), None, Some(1), "u".into(), "o".into()).expect("child");
+            drop(store);
+            fx.restart();
         }
     }
     let acks = Arc::new(Mutex::new(Vec::new()));
@@ -319,6 +340,7 @@ pub fn replay(report: &Report, case: &Value) {
     let pre = match case["pre_state"].as_str().unwrap_or("Warm") {
         "Restarted" => Pre::Restarted,
         "RestartedNoSidecar" => Pre::RestartedNoSidecar,
+        "RestartedLaggingBehindForeignTail" => Pre::RestartedLaggingBehindForeignTail,
         _ => Pre::Warm,
     };
     let all: Vec<Op> = CORE_OPS.iter().copied().chain([Op::StubSessionRun, Op::LinkedStubRun]).collect();
@@ -350,11 +372,12 @@ pub fn run(opts: Opts) -> i32 {
     report.set_rule(
         "engine S: every unordered pair (thorough: plus triples of the 5 simplest ops) of real writer operations {message, run_spawned, \
          run_ended, tool side effects, cursor set, cursor rotate (read-then-append), selection decided, manual checkpoint, auto \
-         compaction, scheduled compaction, branch, handoff, reader replay (cache rebuild)} on one shared thread, from 3 pre-states \
-         (warm counter; restarted; restarted with the sidecar directory deleted), plus sessions/linked runs writing to the shared log; \
+         compaction, scheduled compaction, branch, handoff, reader replay (cache rebuild)} on one shared thread, from 4 pre-states \
+         (warm counter; restarted; restarted with the sidecar directory deleted; restarted with caches that lag the last logged frame while the log ends with another thread), plus sessions/linked runs writing to the shared log; \
          all interleavings at lock / publish / cache / log effect hooks up to the preemption bound; state = distinct executed schedule",
     );
     report.assume("scheduling granularity = hook points; preemption bound 1 (quick) / 2 (thorough, 3 for message-only pairs); 2-3 actors, one op each");
+    report.assume("sequential part (engine P): every provider script with <=1 function call x 7 tool_choice settings x 2 history modes through the production router; oracle = every stream of the log reads 0..n-1 (executed, refused, failed and unknown-tool branches each synthesize frames from the session counter)");
     report.assume("oracle: fresh EventLog validated replay, per-stream 0..n-1 in file order, acknowledged ids exactly once, and again after restart + one append per thread");
     crate::sched::install_hooks();
     if let Some(path) = &opts.replay {
@@ -365,7 +388,7 @@ pub fn run(opts: Opts) -> i32 {
     let tier = report.tier();
     let bound = tier.pick(1, 2);
     let mut configs: Vec<(Pre, Vec<Op>, usize, Vec<&'static str>)> = Vec::new();
-    for pre in [Pre::Warm, Pre::Restarted, Pre::RestartedNoSidecar] {
+    for pre in [Pre::Warm, Pre::Restarted, Pre::RestartedNoSidecar, Pre::RestartedLaggingBehindForeignTail] {
         for (i, a) in CORE_OPS.iter().enumerate() {
             for b in &CORE_OPS[i..] {
                 if *a == Op::ReaderReplay && *b == Op::ReaderReplay {
@@ -403,5 +426,7 @@ pub fn run(opts: Opts) -> i32 {
         }
         run_config(&report, *pre, ops, *b, extra);
     });
+    // sequential part: the counters through every branch of the provider tool loop
+    crate::c16::numbering_sweep(&report);
     report.finish()
 }
